@@ -462,6 +462,27 @@ def g_bytes_left(chk, P, D, sk):
         chk.require(k >= minimum, f'{fn}: only {k} allocations behind a bytes-left test (expected >= {minimum})')
 
 
+def g_quantvals(chk, P, D, sk):
+    """the lattice-size search of _book_maptype1_quantvals only terminates for dim >= 1 (with dim == 0 its inner loop never
+    runs and vals grows without bound)"""
+    F = P.need('_book_maptype1_quantvals')
+    seen = []
+
+    def obs(A, env, e, v):
+        nd = A.ex[e]
+        if nd['k'] == 'call' and nd['callee'].get('d') in ('pow', 'powf', 'floor'):
+            d = [x for k, x in env.items() if isinstance(k, str) and k.endswith('->dim') and isinstance(x, V)]
+            seen.append((e, d[0] if d else None))
+    A = D.make_analyzer(P.key(F))
+    A.observers.append(obs)
+    A.run()
+    chk.require(seen, '_book_maptype1_quantvals: initial estimate (pow/floor) not found')
+    bad = [(e, d) for e, d in seen if d is None or d.lo < 1]
+    chk.ob(RULE, F.name, 'lattice-search-needs-dim>=1', not bad, F.where(seen[0][0]),
+           'the search is entered only with b->dim >= 1' if not bad else
+           f'the search is entered with b->dim {bad[0][1]}: for dim == 0 it does not terminate (decoder init hangs)')
+
+
 def run(chk, P, D):
     chk.rule(RULE, 'listed semantic guards of the decoder are present, each stated over the resolved program: the set-up '
              'completeness gate; group/stage book checks and post uniqueness in the unpackers (for-all loops whose failing edge '
@@ -479,4 +500,5 @@ def run(chk, P, D):
     g_halfrate(chk, P, D, sk)
     g_render_line_ctx(chk, P, D, sk)
     g_bytes_left(chk, P, D, sk)
+    g_quantvals(chk, P, D, sk)
     chk.floor(RULE, 25)
